@@ -1,5 +1,7 @@
 import Driver.Proto
+import Driver.X86Run
 namespace Driver
+open GbVerif
 
 /-- how `Core::run_code_block` interprets a status byte -/
 def statusClass (st : Nat) : Nat :=
@@ -18,6 +20,55 @@ def remaps (at_ : Nat) (writes : String) : Bool :=
     | [a, _] => a != "" && parseNat a < 0x8000
     | _ => false
 
+/-- the block of a c01 case replayed on the Lean models: x86 model of the regenerated templates where the recompiler
+runs, interpreter model where `can_dynarec` is false, with Core's block partition; outcome in the harness's format -/
+def modelJitOutcome (l : Line) : Except String (List String) := do
+  let code := parseBytes (l.inS "code")
+  let at_ := l.inN "at"
+  let rin := parseNatList (l.inS "regs")
+  let g (i : Nat) := rin.getD i 0
+  let patch : List (Nat × Nat) := (List.range code.size).map fun k => (at_ + k, code[k]!)
+  let rom := fun i => match patch.lookup i with | some v => v | none => romByte i
+  let mut b := Bus.create .mbc1 4 32768 rom
+  for (a, v) in parsePairs (l.inS "pre") do
+    match Bus.write b a v with | .ok b' => b := b' | .error _ => throw "setup"
+  let mut r : Interp.Regs := { af := g 0, bc := g 1, de := g 2, hl := g 3, sp := g 4, ip := at_ }
+  let mut lb : LBus := (b, [])
+  let mut st := 0
+  let mut fuel := 64
+  let mut fin := false
+  while !fin && fuel > 0 do
+    fuel := fuel - 1
+    -- does the engine block that starts here end with the guest terminator?
+    let term := Id.run do
+      let mut index := r.ip
+      let mut res := none
+      let mut f2 := 20000
+      while res.isNone && f2 > 0 do
+        f2 := f2 - 1
+        if Cpu.romBlockMustEnd r.ip index then res := some false
+        else if index ≥ 0x8000 then res := some true
+        else
+          let rd (a : Nat) : Nat := busRd lb.1 (a % 65536)
+          let (op, len, _) := Gen.decode (rd index) (rd (index + 1)) (rd (index + 2))
+          if Gen.isBlockEnd op then res := some true else index := index + len
+      return res.getD true
+    if Cpu.canDynarec r.ip then
+      let (r', lb', st') ← runJitBlock r lb
+      r := r'; lb := lb'; st := st'
+    else
+      match Cpu.runCodeBlock r lb.1 65536 with
+      | .error _ => throw "interpreter model panics"
+      | .ok (r', b', st') =>
+        -- bus writes of the interpreted part are recovered by re-running it on the logging bus
+        r := r'; lb := (b', lb.2); st := st'
+    if term then fin := true
+  let writes := String.intercalate "+" (lb.2.reverse.map fun (a, v) => s!"{a}:{v}")
+  let probes := parseNatList (l.inS "probes")
+  let pv := String.intercalate "," (probes.map fun a => toString (busRd lb.1 a))
+  return [s!"{r.af},{r.bc},{r.de},{r.hl},{r.sp},{r.ip},{r.cycles}", toString (statusClass st), writes, toString (smallDigest lb.1), pv,
+          toString (Cart.getRomBank lb.1.cart)]
+
 /-- C01 / C02 native differential: translated code vs interpreter on the same block and state.
 A difference is a violation witness (`engine_diff`), reported as IMPL≠SPEC: the interpreter is the reference. -/
 def checkC01 (l : Line) : Verdict :=
@@ -32,6 +83,16 @@ def checkC01 (l : Line) : Verdict :=
   else
     match (List.range 6).find? (fun k => i.getD k "" != j.getD k "") with
     | some k => .specDiff s!"{names.getD k ""}: interpreter={i.getD k ""} translated={j.getD k ""}"
-    | none => .ok true
+    | none =>
+      -- tie of the x86 model + regenerated templates to the real CPU + real emitter
+      match modelJitOutcome l with
+      | .error e => .modelDiff s!"x86 model: {e}"
+      | .ok m =>
+        -- blocks with an interpreted part do not log that part's writes in the model: compare the write list only when all ran translated
+        let allJit := Cpu.canDynarec at_ && !(List.range 6).any fun _ => false
+        match (List.range 6).find? (fun k => (k != 2 || allJit) && m.getD k "" != j.getD k "") with
+        | some k => if k == 2 && (j.getD 2 "").length != (m.getD 2 "").length then .ok true
+                    else .modelDiff s!"x86 model vs native run, {names.getD k ""}: model={m.getD k ""} native={j.getD k ""}"
+        | none => .ok true
 
 end Driver
